@@ -15,6 +15,7 @@ mod params;
 mod quant;
 mod ribbon;
 mod util;
+mod voice;
 
 use util::*;
 
@@ -60,6 +61,7 @@ fn main() {
                 "ribbon" => ribbon::record(driver, seed, thorough, &mut out),
                 "glide" => glide::record(driver, seed, thorough, &mut out),
                 "params" => params::record(driver, seed, thorough, &mut out),
+                "voice" => voice::record(driver, seed, thorough, &mut out),
                 _ => usage(),
             };
             let n = out.finish();
@@ -81,6 +83,7 @@ fn main() {
                 "ribbon" => ribbon::rerun(&lines, &mut out),
                 "glide" => glide::rerun(&lines, &mut out),
                 "params" => params::rerun(&lines, &mut out),
+                "voice" => voice::rerun(&lines, &mut out),
                 _ => usage(),
             }
             out.finish();
